@@ -1,7 +1,15 @@
 import RedbModel.Model.KeyType
+import RedbModel.Lemmas.KeyOrd
+import RedbModel.Lemmas.KeyCmp
+import RedbModel.Lemmas.KeyArray
+import RedbModel.Lemmas.KeyUtf8
 /-!
 Helper lemmas for the key-type model. The property theorems that use them are in
 `Props/C15.lean`.
+
+Supporting files: `KeyOrd` (abstract comparator laws, `lexCmp`, `compare`), `KeyCmp` (`cmp t` is a
+total preorder on valid encodings, by induction over `KT`), `KeyArray` (`buildArray` round trip),
+`KeyUtf8` (cutting well-formed UTF-8 at a character boundary).
 -/
 namespace Redb.Key
 
@@ -18,28 +26,534 @@ structure CmpLaws (t : KT) : Prop where
     cmp t a b ≠ .gt → cmp t b c = .lt → cmp t a c = .lt
 
 theorem cmp_laws (t : KT) : CmpLaws t := by
-  sorry
+  have h := ordLaws_cmp t
+  constructor
+  · exact h.refl
+  · intro a b ha hb
+    have := h.swap a b ha hb
+    cases hab : cmp t a b <;> simp_all [Ordering.swap]
+  · intro a b ha hb
+    have := h.swap a b ha hb
+    cases hab : cmp t a b <;> simp_all [Ordering.swap]
+  · exact h.trans_le
+  · exact h.trans_lt
+
+/-! ### fixed widths -/
+
+theorem fixedWidths_all_isSome (ts : List KT) (w : Nat) (h : fixedWidths ts = some w) :
+    (fixedWidthList ts).all Option.isSome = true := by
+  induction ts generalizing w with
+  | nil => simp [fixedWidthList]
+  | cons t ts ih =>
+    simp only [fixedWidths] at h
+    split at h
+    · rename_i a b ha hb
+      simp [fixedWidthList, ha] 
+      have := ih b hb
+      simpa [fixedWidthList] using this
+    · simp at h
+
+theorem valid_fixedWidth (t : KT) (w : Nat) (a : Bytes)
+    (h : fixedWidth t = some w) (ha : valid t a = true) : a.length = w := by
+  induction t using KT.rec (motive_2 := fun ts => ∀ w es, fixedWidths ts = some w →
+      validList ts es = true → lenSum es = w) generalizing w a with
+  | unit => simp_all [fixedWidth, valid]
+  | bool => simp_all [fixedWidth, valid]
+  | char => simp_all [fixedWidth, valid]
+  | uint w' => simp_all [fixedWidth, valid]
+  | sint w' => simp_all [fixedWidth, valid]
+  | str => simp [fixedWidth] at h
+  | bytes => simp [fixedWidth] at h
+  | fixedBytes n => simp_all [fixedWidth, valid]
+  | option t ih =>
+    simp only [fixedWidth] at h
+    split at h
+    · rename_i w' hw'
+      cases a with
+      | nil => simp [valid] at ha
+      | cons tag rest =>
+        simp only [valid, hw'] at ha
+        split at ha
+        · simp at ha h; simp; omega
+        · simp at ha h
+          have := ih w' rest hw' ha.2
+          simp; omega
+    · simp at h
+  | array n t ih =>
+    simp only [fixedWidth] at h
+    split at h
+    · rename_i w' hw'
+      simp only [valid, hw', Bool.and_eq_true, beq_iff_eq] at ha
+      simp at h; omega
+    · simp at h
+  | tuple ts ih =>
+    simp only [fixedWidth] at h
+    have hall := fixedWidths_all_isSome ts w h
+    simp only [valid, hall, if_true, Bool.and_eq_true, beq_iff_eq, foldl_len] at ha
+    have := ih w _ h ha.2
+    omega
+  | nil =>
+    rename_i w es h hv
+    cases es <;> simp_all [fixedWidths, validList]
+  | cons t ts iht ihts =>
+    rename_i w es h hv
+    obtain ⟨x, xs, rfl, hx, hxs⟩ := validList_cons_elim hv
+    simp only [fixedWidths] at h
+    split at h
+    · rename_i a b ha hb
+      have h1 := iht a x ha hx
+      have h2 := ihts b xs hb hxs
+      simp at h; simp; omega
+    · simp at h
+
+theorem branchSeparator_fixed (t : KT) (w : Nat) (a b : Bytes) (h : fixedWidth t = some w) :
+    branchSeparator t a b = a := by
+  simp [branchSeparator, h]
+
+/-! ### minKey -/
+
+theorem tupleElements_single (t : KT) (m : Bytes) (h : valid t m = true) :
+    tupleElements (fixedWidthList [t]) m = [m] := by
+  cases hfw : fixedWidth t with
+  | some w =>
+    have := valid_fixedWidth t w m hfw h
+    simp [tupleElements, fixedWidthList, hfw, slice, ← this]
+  | none =>
+    simp [tupleElements, fixedWidthList, hfw, parseLens]
+
+theorem valid_tuple_single_elim (t : KT) (a : Bytes) (h : valid (.tuple [t]) a = true) :
+    ∃ x, tupleElements (fixedWidthList [t]) a = [x] ∧ valid t x = true := by
+  simp only [valid, Bool.and_eq_true] at h
+  obtain ⟨x, xs, hx, hv, hxs⟩ := validList_cons_elim h.2
+  cases xs with
+  | nil => exact ⟨x, hx, hv⟩
+  | cons y ys => simp [validList] at hxs
+
+theorem minKey_least (t : KT) (m : Bytes) (h : minKey t = some m) :
+    valid t m = true ∧ ∀ a, valid t a = true → cmp t m a ≠ .gt := by
+  fun_induction minKey t generalizing m with
+  | case1 t w hw =>
+    simp at h; subst h
+    constructor
+    · simp [valid, List.replicate_succ, hw]
+    · intro a _; simp only [cmp, List.replicate_succ]; simp; split <;> simp
+  | case2 t hw =>
+    simp at h; subst h
+    constructor
+    · simp [valid, hw]
+    · intro a _; simp only [cmp]; simp; split <;> simp
+  | case3 =>
+    simp at h; subst h
+    refine ⟨by simp [valid], fun a _ => ?_⟩
+    cases a <;> simp [cmp, lexCmp]
+  | case4 =>
+    simp at h; subst h
+    refine ⟨by simp [valid, validUtf8], fun a _ => ?_⟩
+    cases a <;> simp [cmp, lexCmp]
+  | case5 t ih =>
+    obtain ⟨hv, hle⟩ := ih m h
+    have hm := tupleElements_single t m hv
+    constructor
+    · simp only [valid, hm, Bool.and_eq_true]
+      refine ⟨⟨by simp, ?_⟩, by simp [validList, hv]⟩
+      cases hfw : fixedWidth t <;> simp [fixedWidthList, hfw, parseLens]
+    · intro a ha
+      obtain ⟨x, hx, hvx⟩ := valid_tuple_single_elim t a ha
+      have := hle x hvx
+      simp only [cmp, hm, hx, cmpList, cmpList_nil]
+      cases hc : cmp t m x <;> simp_all
+  | case6 t h1 h2 h3 h4 => simp at h
+
+/-! ### separators of byte strings, options -/
+
+theorem lexCmp_take_left (l r : Bytes) (n : Nat) (hlt : lexCmp l r = .lt)
+    (h1 : commonPrefixLen l r + 1 ≤ n) : lexCmp l (r.take n) = .lt := by
+  fun_induction commonPrefixLen l r generalizing n with
+  | case1 as bs a ih =>
+    obtain ⟨n', rfl⟩ : ∃ n', n = n' + 1 := ⟨n - 1, by omega⟩
+    simp_all [lexCmp]
+  | case2 a as b bs hne =>
+    obtain ⟨n', rfl⟩ : ∃ n', n = n' + 1 := ⟨n - 1, by omega⟩
+    simp_all [lexCmp]
+    grind
+  | case3 l r hne =>
+    obtain ⟨n', rfl⟩ : ∃ n', n = n' + 1 := ⟨n - 1, by omega⟩
+    cases l <;> cases r
+    · simp [lexCmp] at hlt
+    · simp [lexCmp]
+    · simp [lexCmp] at hlt
+    · exact (hne _ _ _ _ rfl rfl).elim
+
+theorem lexCmp_take_right (r : Bytes) (n : Nat) (hn : n < r.length) :
+    lexCmp (r.take n) r = .lt := by
+  induction r generalizing n with
+  | nil => simp at hn
+  | cons b bs ih =>
+    cases n with
+    | zero => simp [lexCmp]
+    | succ n => simp at hn; simp [lexCmp, ih n hn]
+
+theorem sepOk_self (t : KT) (a b : Bytes) (ha : valid t a = true) (hlt : cmp t a b = .lt) :
+    sepOk t a b a = true := by
+  simp [sepOk, ha, hlt, (ordLaws_cmp t).refl a ha]
+
+theorem sepOk_bytes (a b : Bytes) (hlt : cmp .bytes a b = .lt) :
+    sepOk .bytes a b (sep .bytes a b) = true := by
+  simp only [sep]
+  split
+  · rename_i h
+    simp only [Bool.and_eq_true, decide_eq_true_eq] at h
+    simp only [cmp] at hlt
+    simp [sepOk, valid, cmp, lexCmp_take_left a b _ hlt (Nat.le_refl _),
+      lexCmp_take_right b _ h.2]
+    omega
+  · exact sepOk_self _ _ _ (by simp [valid]) hlt
+
+theorem sepOk_str (a b : Bytes) (ha : valid .str a = true) (hb : valid .str b = true)
+    (hlt : cmp .str a b = .lt) :
+    sepOk .str a b (sep .str a b) = true := by
+  simp only [sep]
+  split
+  · rename_i h
+    simp only [Bool.and_eq_true, decide_eq_true_eq] at h
+    simp only [cmp] at hlt
+    simp only [valid] at hb
+    have hv := validUtf8_take_boundary b _ hb h.2 (roundUp_not_cont b _ h.2)
+    simp [sepOk, valid, cmp, lexCmp_take_left a b _ hlt (roundUp_ge b _),
+      lexCmp_take_right b _ h.2, hv]
+    omega
+  · exact sepOk_self _ _ _ ha hlt
+
+theorem sepOk_option (t : KT) (a b : Bytes)
+    (ih : ∀ a b, valid t a = true → valid t b = true → cmp t a b = .lt →
+      sepOk t a b (sep t a b) = true)
+    (ha : valid (.option t) a = true) (hb : valid (.option t) b = true)
+    (hlt : cmp (.option t) a b = .lt) :
+    sepOk (.option t) a b (sep (.option t) a b) = true := by
+  simp only [sep]
+  split
+  · exact sepOk_self _ _ _ ha hlt
+  · split
+    · exact sepOk_self _ _ _ ha hlt
+    · split
+      · exact sepOk_self _ _ _ ha hlt
+      · rename_i hfw h0 hlen
+        cases a with
+        | nil => simp [valid] at ha
+        | cons ta ra =>
+        cases b with
+        | nil => simp [valid] at hb
+        | cons tb rb =>
+        simp only [List.getD_cons_zero] at h0
+        simp only [cmp, List.getD_cons_zero, h0, if_false, List.drop_succ_cons, List.drop_zero] at hlt
+        split at hlt
+        · simp at hlt
+        · rename_i h0b
+          simp only [valid, h0, h0b, if_false, Bool.and_eq_true, beq_iff_eq] at ha hb
+          have := ih ra rb ha.2 hb.2 hlt
+          simp only [sepOk, Bool.and_eq_true, bne_iff_ne, ne_eq, beq_iff_eq, decide_eq_true_eq] at this ⊢
+          simp only [List.drop_succ_cons, List.drop_zero] at hlen ⊢
+          obtain ⟨⟨⟨s1, s2⟩, s3⟩, s4⟩ := this
+          refine ⟨⟨⟨?_, ?_⟩, ?_⟩, ?_⟩
+          · simp [valid, s1]
+          · simp [cmp, h0]; exact s2
+          · simp [cmp, h0b]; exact s3
+          · simp at hlen ⊢; omega
+
+/-! ### variable-width arrays -/
+
+/-- comparison of elements `i .. i+k` -/
+def cmpElems (t : KT) (n : Nat) (a b : Bytes) (i k : Nat) : Ordering :=
+  cmpList (List.replicate k t) (elemsFrom n a i k) (elemsFrom n b i k)
+
+theorem cmpElems_zero (t : KT) (n : Nat) (a b : Bytes) (i : Nat) : cmpElems t n a b i 0 = .eq := by
+  simp [cmpElems, cmpList_nil]
+
+theorem cmpElems_succ (t : KT) (n : Nat) (a b : Bytes) (i k : Nat) :
+    cmpElems t n a b i (k + 1) =
+      match cmp t (arrayElement n a i) (arrayElement n b i) with
+      | .eq => cmpElems t n a b (i + 1) k
+      | o => o := by
+  simp only [cmpElems, elemsFrom, List.replicate_succ, cmpList]
+  generalize cmp t (arrayElement n a i) (arrayElement n b i) = o
+  cases o <;> rfl
+
+theorem cmp_array_var (t : KT) (n : Nat) (a b : Bytes) (hfw : fixedWidth t = none) :
+    cmp (.array n t) a b = cmpElems t n a b 0 n := by
+  simp only [cmp, hfw]
+  exact cmpOffsets_eq t n a b 0 n
+
+theorem cmpElems_all_eq (t : KT) (n : Nat) (a b : Bytes) (i k : Nat)
+    (h : ∀ j, i ≤ j → j < i + k → cmp t (arrayElement n a j) (arrayElement n b j) = .eq) :
+    cmpElems t n a b i k = .eq := by
+  induction k generalizing i with
+  | zero => exact cmpElems_zero ..
+  | succ k ih =>
+    rw [cmpElems_succ, h i (by omega) (by omega)]
+    exact ih (i + 1) (fun j h1 h2 => h j (by omega) (by omega))
+
+theorem cmpElems_first (t : KT) (n : Nat) (a b : Bytes) (i0 k i : Nat) (o : Ordering)
+    (h : ∀ j, i0 ≤ j → j < i → cmp t (arrayElement n a j) (arrayElement n b j) = .eq)
+    (hi : i0 ≤ i) (hik : i < i0 + k)
+    (ho : cmp t (arrayElement n a i) (arrayElement n b i) = o) (hne : o ≠ .eq) :
+    cmpElems t n a b i0 k = o := by
+  induction k generalizing i0 with
+  | zero => omega
+  | succ k ih =>
+    rw [cmpElems_succ]
+    by_cases hii : i0 = i
+    · subst hii; rw [ho]; cases o <;> simp_all
+    · rw [h i0 (by omega) (by omega)]
+      exact ih (i0 + 1) (fun j h1 h2 => h j (by omega) h2) (by omega) (by omega)
+
+theorem valid_array_var (t : KT) (n : Nat) (d : Bytes) (hfw : fixedWidth t = none) :
+    valid (.array n t) d = true ↔
+      4 * n ≤ d.length ∧
+      (∀ j, j < n → startOf n d j ≤ rdU32 d (4 * j) ∧ rdU32 d (4 * j) ≤ d.length ∧
+        valid t (arrayElement n d j) = true) ∧ startOf n d n = d.length := by
+  simp only [valid, hfw, Bool.and_eq_true, decide_eq_true_eq]
+  have := validOffsets_iff t n d 0 n
+  have e : startOf n d 0 = 4 * n := by simp [startOf]
+  rw [e] at this
+  rw [this]
+  simp
+
+theorem lenSum_take_succ (es : List Bytes) (j : Nat) (hj : j < es.length) :
+    lenSum (es.take (j + 1)) = lenSum (es.take j) + es[j].length := by
+  induction es generalizing j with
+  | nil => simp at hj
+  | cons e es ih =>
+    cases j with
+    | zero => simp
+    | succ j => simp at hj; simp [ih j hj]; omega
+
+theorem startOf_buildArray (es : List Bytes) (h : 4 * es.length + lenSum es < 2 ^ 32)
+    (j : Nat) (hj : j ≤ es.length) :
+    startOf es.length (buildArray es) j = 4 * es.length + lenSum (es.take j) := by
+  cases j with
+  | zero => simp [startOf]
+  | succ j => rw [startOf_succ, rdU32_buildArray es h j (by omega)]
+
+theorem valid_buildArray (t : KT) (es : List Bytes) (hfw : fixedWidth t = none)
+    (h : 4 * es.length + lenSum es < 2 ^ 32)
+    (hv : ∀ j (hj : j < es.length), valid t es[j] = true) :
+    valid (.array es.length t) (buildArray es) = true := by
+  rw [valid_array_var _ _ _ hfw]
+  refine ⟨by rw [buildArray_length]; omega, fun j hj => ⟨?_, ?_, ?_⟩, ?_⟩
+  · rw [startOf_buildArray es h j (by omega), rdU32_buildArray es h j hj, lenSum_take_succ es j hj]
+    omega
+  · rw [rdU32_buildArray es h j hj, buildArray_length]
+    have := lenSum_take_le es (j + 1); omega
+  · rw [arrayElement_buildArray es h j hj]; exact hv j hj
+  · rw [startOf_buildArray es h _ (Nat.le_refl _), buildArray_length]; simp
+
+/-- the assembled separator is fine as soon as the element list has the right shape -/
+theorem sepOk_build (t : KT) (n : Nat) (l r : Bytes) (hfw : fixedWidth t = none) (es : List Bytes)
+    (hlen : es.length = n)
+    (hl : valid (.array n t) l = true)
+    (i : Nat) (hi : i < n)
+    (hpre : ∀ j, j < i → cmp t (arrayElement n l j) (arrayElement n r j) = .eq)
+    (hv : ∀ j (hj : j < es.length), valid t es[j] = true)
+    (hes : ∀ j (hj : j < es.length), j < i → es[j] = arrayElement n l j)
+    (hs1 : cmp t (arrayElement n l i) (es[i]'(by omega)) ≠ .gt)
+    (hs2 : cmp t (es[i]'(by omega)) (arrayElement n r i) = .lt)
+    (htail : cmp t (arrayElement n l i) (es[i]'(by omega)) = .eq →
+      ∀ j (hj : j < es.length), i < j → es[j] = arrayElement n l j)
+    (htot : 4 * n + lenSum es < l.length) :
+    sepOk (.array n t) l r (buildArray es) = true := by
+  subst hlen
+  have hl' := (valid_array_var _ _ _ hfw).1 hl
+  have h32 : 4 * es.length + lenSum es < 2 ^ 32 := by
+    have : startOf es.length l es.length < 2 ^ 32 := by
+      obtain ⟨m, hm⟩ : ∃ m, es.length = m + 1 := ⟨es.length - 1, by omega⟩
+      rw [hm, startOf_succ]; exact rdU32_lt _ _
+    omega
+  have hrefl := fun j (hj : j < es.length) => (ordLaws_cmp t).refl _ (hl'.2.1 j hj).2.2
+  simp only [sepOk, Bool.and_eq_true, bne_iff_ne, ne_eq, beq_iff_eq, decide_eq_true_eq]
+  refine ⟨⟨⟨valid_buildArray t es hfw h32 hv, ?_⟩, ?_⟩, by rw [buildArray_length]; omega⟩
+  · rw [cmp_array_var _ _ _ _ hfw]
+    cases hc : cmp t (arrayElement es.length l i) es[i] with
+    | gt => exact absurd hc hs1
+    | lt =>
+      rw [cmpElems_first t _ l _ 0 _ i .lt ?_ (by omega) (by omega) ?_ (by simp)]
+      · simp
+      · intro j _ hj
+        rw [arrayElement_buildArray es h32 j (by omega), hes j (by omega) hj]
+        exact hrefl j (by omega)
+      · rw [arrayElement_buildArray es h32 i hi]; exact hc
+    | eq =>
+      rw [cmpElems_all_eq]
+      · simp
+      · intro j _ hj
+        rw [arrayElement_buildArray es h32 j (by omega)]
+        rcases Nat.lt_trichotomy j i with h | h | h
+        · rw [hes j (by omega) h]; exact hrefl j (by omega)
+        · subst h; exact hc
+        · rw [htail hc j (by omega) h]; exact hrefl j (by omega)
+  · rw [cmp_array_var _ _ _ _ hfw]
+    apply cmpElems_first t _ _ r 0 _ i .lt ?_ (by omega) (by omega) ?_ (by simp)
+    · intro j _ hj
+      rw [arrayElement_buildArray es h32 j (by omega), hes j (by omega) hj]
+      exact hpre j hj
+    · rw [arrayElement_buildArray es h32 i hi]; exact hs2
+
+/-- the element list assembled by the array separator at the first differing element `i` -/
+def sepElemsWith (n : Nat) (l : Bytes) (i : Nat) (s : Bytes) (tail : Option Bytes) : List Bytes :=
+  (List.range i).map (arrayElement n l) ++ [s] ++
+    (List.range (n - (i + 1))).map (fun j =>
+      match tail with
+      | some m => m
+      | none => arrayElement n l (i + 1 + j))
+
+def sepTail (t : KT) (n : Nat) (l r : Bytes) (i : Nat) : Option Bytes :=
+  if (decide (i + 1 < n) && cmp t (arrayElement n l i)
+      (sep t (arrayElement n l i) (arrayElement n r i)) == .lt) = true
+  then minKey t else none
+
+def sepElems (t : KT) (n : Nat) (l r : Bytes) (i : Nat) : List Bytes :=
+  sepElemsWith n l i (sep t (arrayElement n l i) (arrayElement n r i)) (sepTail t n l r i)
+
+theorem sepArray_succ (t : KT) (n : Nat) (l r : Bytes) (i k : Nat) :
+    sepArray t n l r i (k + 1) =
+      if cmp t (arrayElement n l i) (arrayElement n r i) = .eq then sepArray t n l r (i + 1) k
+      else if 4 * n + lenSum (sepElems t n l r i) ≥ l.length then l
+      else buildArray (sepElems t n l r i) := by
+  rw [sepArray]
+  simp only [foldl_len, beq_iff_eq]
+  rfl
+
+theorem length_sepElemsWith (n : Nat) (l : Bytes) (i : Nat) (s : Bytes) (tail : Option Bytes)
+    (hi : i < n) : (sepElemsWith n l i s tail).length = n := by
+  simp [sepElemsWith]; omega
+
+theorem sepElemsWith_lt (n : Nat) (l : Bytes) (i : Nat) (s : Bytes) (tail : Option Bytes)
+    (j : Nat) (hj : j < i) (h : j < (sepElemsWith n l i s tail).length) :
+    (sepElemsWith n l i s tail)[j] = arrayElement n l j := by
+  simp [sepElemsWith, hj]
+
+theorem sepElemsWith_eq (n : Nat) (l : Bytes) (i : Nat) (s : Bytes) (tail : Option Bytes)
+    (h : i < (sepElemsWith n l i s tail).length) :
+    (sepElemsWith n l i s tail)[i] = s := by
+  simp [sepElemsWith]
+
+theorem sepElemsWith_gt (n : Nat) (l : Bytes) (i : Nat) (s : Bytes) (tail : Option Bytes)
+    (j : Nat) (hj : i < j) (h : j < (sepElemsWith n l i s tail).length) :
+    (sepElemsWith n l i s tail)[j] = tail.getD (arrayElement n l j) := by
+  cases tail <;>
+    simp [sepElemsWith, List.getElem_append, show ¬ j < i by omega, List.getElem_cons,
+      show j - i ≠ 0 by omega, show i + 1 + (j - i - 1) = j by omega]
+
+
+theorem sepElems_lt (t : KT) (n : Nat) (l r : Bytes) (i j : Nat) (hj : j < i)
+    (h : j < (sepElems t n l r i).length) : (sepElems t n l r i)[j] = arrayElement n l j :=
+  sepElemsWith_lt _ _ _ _ _ j hj h
+
+theorem sepElems_eq (t : KT) (n : Nat) (l r : Bytes) (i : Nat)
+    (h : i < (sepElems t n l r i).length) :
+    (sepElems t n l r i)[i] = sep t (arrayElement n l i) (arrayElement n r i) :=
+  sepElemsWith_eq _ _ _ _ _ h
+
+theorem sepElems_gt (t : KT) (n : Nat) (l r : Bytes) (i j : Nat) (hj : i < j)
+    (h : j < (sepElems t n l r i).length) :
+    (sepElems t n l r i)[j] = (sepTail t n l r i).getD (arrayElement n l j) :=
+  sepElemsWith_gt _ _ _ _ _ j hj h
+
+theorem sepOk_sepArray (t : KT) (n : Nat) (l r : Bytes) (hfw : fixedWidth t = none)
+    (ih : ∀ a b, valid t a = true → valid t b = true → cmp t a b = .lt →
+      sepOk t a b (sep t a b) = true)
+    (hl : valid (.array n t) l = true) (hr : valid (.array n t) r = true)
+    (hlt : cmp (.array n t) l r = .lt) (k i : Nat) (hik : i + k = n)
+    (hpre : ∀ j, j < i → cmp t (arrayElement n l j) (arrayElement n r j) = .eq)
+    (hc : cmpElems t n l r i k = .lt) :
+    sepOk (.array n t) l r (sepArray t n l r i k) = true := by
+  induction k generalizing i with
+  | zero => simp only [sepArray]; exact sepOk_self _ _ _ hl hlt
+  | succ k ihk =>
+    rw [sepArray_succ]
+    rw [cmpElems_succ] at hc
+    split
+    · rename_i heq
+      rw [heq] at hc
+      refine ihk (i + 1) (by omega) (fun j hj => ?_) hc
+      by_cases hji : j = i
+      · subst hji; exact heq
+      · exact hpre j (by omega)
+    · rename_i hne
+      have hlt' : cmp t (arrayElement n l i) (arrayElement n r i) = .lt := by
+        cases h : cmp t (arrayElement n l i) (arrayElement n r i) <;> simp_all
+      split
+      · exact sepOk_self _ _ _ hl hlt
+      · rename_i htot
+        have hi : i < n := by omega
+        have hl' := (valid_array_var _ _ _ hfw).1 hl
+        have hr' := (valid_array_var _ _ _ hfw).1 hr
+        have hs := ih _ _ (hl'.2.1 i hi).2.2 (hr'.2.1 i hi).2.2 hlt'
+        simp only [sepOk, Bool.and_eq_true, bne_iff_ne, ne_eq, beq_iff_eq, decide_eq_true_eq] at hs
+        obtain ⟨⟨⟨s1, s2⟩, s3⟩, _⟩ := hs
+        have hlen : (sepElems t n l r i).length = n := length_sepElemsWith _ _ _ _ _ hi
+        refine sepOk_build t n l r hfw (sepElems t n l r i) hlen hl i hi hpre ?_ ?_ ?_ ?_ ?_
+          (by omega)
+        · intro j hj
+          rcases Nat.lt_trichotomy j i with h | h | h
+          · rw [sepElems_lt _ _ _ _ _ j h]
+            exact (hl'.2.1 j (by omega)).2.2
+          · subst h
+            rw [sepElems_eq]
+            exact s1
+          · rw [sepElems_gt _ _ _ _ _ j h]
+            cases htl : sepTail t n l r i with
+            | none => exact (hl'.2.1 j (by omega)).2.2
+            | some m =>
+              have hm : minKey t = some m := by
+                simp only [sepTail] at htl
+                split at htl
+                · exact htl
+                · simp at htl
+              exact (minKey_least t m hm).1
+        · intro j hj h
+          exact sepElems_lt _ _ _ _ _ j h hj
+        · rw [sepElems_eq]
+          exact s2
+        · rw [sepElems_eq]
+          exact s3
+        · rw [sepElems_eq]
+          intro heq j hj h
+          rw [sepElems_gt _ _ _ _ _ j h]
+          have : sepTail t n l r i = none := by simp [sepTail, heq]
+          rw [this]; rfl
+
+/-! ### the separator contract -/
 
 theorem sep_contract (t : KT) (a b : Bytes)
     (ha : valid t a = true) (hb : valid t b = true) (hlt : cmp t a b = .lt) :
     sepOk t a b (sep t a b) = true := by
-  sorry
+  induction t using KT.rec (motive_2 := fun _ => True) generalizing a b with
+  | unit => simp only [sep]; exact sepOk_self _ _ _ ha hlt
+  | bool => simp only [sep]; exact sepOk_self _ _ _ ha hlt
+  | char => simp only [sep]; exact sepOk_self _ _ _ ha hlt
+  | uint w => simp only [sep]; exact sepOk_self _ _ _ ha hlt
+  | sint w => simp only [sep]; exact sepOk_self _ _ _ ha hlt
+  | str => exact sepOk_str a b ha hb hlt
+  | bytes => exact sepOk_bytes a b hlt
+  | fixedBytes n => simp only [sep]; exact sepOk_self _ _ _ ha hlt
+  | option t ih => exact sepOk_option t a b ih ha hb hlt
+  | array n t ih =>
+    simp only [sep]
+    split
+    · exact sepOk_self _ _ _ ha hlt
+    · rename_i hfw
+      exact sepOk_sepArray t n a b hfw ih ha hb hlt n 0 (by omega) (by omega)
+        (by rw [← cmp_array_var _ _ _ _ hfw]; exact hlt)
+  | tuple ts _ => simp only [sep]; exact sepOk_self _ _ _ ha hlt
+  | nil => trivial
+  | cons _ _ _ _ => trivial
 
 theorem branchSeparator_contract (t : KT) (a b : Bytes)
     (ha : valid t a = true) (hb : valid t b = true) (hlt : cmp t a b = .lt) :
     sepOk t a b (branchSeparator t a b) = true := by
-  sorry
-
-theorem branchSeparator_fixed (t : KT) (w : Nat) (a b : Bytes) (h : fixedWidth t = some w) :
-    branchSeparator t a b = a := by
-  sorry
-
-theorem minKey_least (t : KT) (m : Bytes) (h : minKey t = some m) :
-    valid t m = true ∧ ∀ a, valid t a = true → cmp t m a ≠ .gt := by
-  sorry
-
-theorem valid_fixedWidth (t : KT) (w : Nat) (a : Bytes)
-    (h : fixedWidth t = some w) (ha : valid t a = true) : a.length = w := by
-  sorry
+  simp only [branchSeparator]
+  split
+  · exact sepOk_self _ _ _ ha hlt
+  · exact sep_contract t a b ha hb hlt
 
 end Redb.Key
